@@ -111,7 +111,7 @@ pub fn len_strategy(tier: Tier, max_quick: usize, max_thorough: usize) -> BoxedS
     }
 }
 
-pub const ALL_CLASSES: &[u8] = &[0, 1, 2, 3, 4, 5, 6, 7, 8, 9];
+pub const ALL_CLASSES: &[u8] = &[0, 1, 2, 3, 4, 5, 6, 7, 8, 9, 11];
 /// tie-heavy classes for the extrema / rank family
 pub const TIE_CLASSES: &[u8] = &[0, 10, 1, 4, 5, 5, 6, 6, 8, 2];
 
@@ -143,6 +143,7 @@ pub fn class_name(class: u8) -> &'static str {
         7 => "float_offset",
         8 => "tiny_alphabet",
         10 => "ulp_neighbours",
+        11 => "medium_int",
         _ => "small_int",
     }
 }
@@ -163,6 +164,11 @@ pub fn values_of(rs: &RawSeries, integer: bool, f32ok: bool) -> (Vec<f64>, &'sta
     if class == 10 && (integer || f32ok) {
         class = 0;
     }
+    if class == 11 && f32ok {
+        // f32 inputs are kept to values whose sums are exact in f32 (the library accumulates some
+        // statistics in the element type; that rounding is not what the checks are about)
+        class = 1;
+    }
     let mut out = Vec::with_capacity(n);
     match class {
         0 | 8 => {
@@ -179,6 +185,14 @@ pub fn values_of(rs: &RawSeries, integer: bool, f32ok: bool) -> (Vec<f64>, &'sta
         2 => {
             for (a, _) in &rs.raw {
                 out.push((a % 8193) as f64 / 8.0);
+            }
+        },
+        11 => {
+            // integers up to +-4.2e6: every window / series sum generated here (<= 400 elements) fits an
+            // i32, but squares and products do not (a statistic that multiplies in the element type
+            // instead of f64 overflows for integers and loses precision for f32)
+            for (a, _) in &rs.raw {
+                out.push((*a as i64 * 4) as f64);
             }
         },
         10 => {
@@ -440,7 +454,8 @@ pub struct RawPair {
 }
 
 pub fn raw_pair(len: impl Strategy<Value = usize> + 'static) -> impl Strategy<Value = RawPair> {
-    (len, (0u8..10, any::<u8>(), 0u8..9, any::<u8>()), (0u8..10, any::<u8>(), 0u8..9, any::<u8>()), 0u8..8).prop_flat_map(
+    let cls = || (0..ALL_CLASSES.len()).prop_map(|i| ALL_CLASSES[i]);
+    (len, (cls(), any::<u8>(), 0u8..9, any::<u8>()), (cls(), any::<u8>(), 0u8..9, any::<u8>()), 0u8..8).prop_flat_map(
         |(n, ca, cb, rel)| {
             (vec((-RAW_MAX..=RAW_MAX, any::<u8>()), n), vec((-RAW_MAX..=RAW_MAX, any::<u8>()), n)).prop_map(move |(ra, rb)| RawPair {
                 a: RawSeries {
